@@ -209,6 +209,11 @@ def gjk_nesterov_accelerated(
 
         i += 1
 
+    if i >= max_interations and not inside:
+        # Not converged within max_interations: the length of the current
+        # ray is the best known estimate (an upper bound) of the distance.
+        distance = ray_len - inflation
+
     return inside, distance, simplex, i
 
 
